@@ -1272,7 +1272,7 @@ func specialize(r *rng, p *plan.Plan, focus, arm string) {
 				rp.MetricsAddr = "127.0.0.1:9153"
 			}
 		case "startfault":
-			kinds := []string{"addr_in_use", "bad_pem", "bad_proto", "bad_scheme", "missing_file", "bad_ca", "no_cert", "dup_tag", "dup_tag_quic", "unknown_upstream_tag"}
+			kinds := []string{"addr_in_use", "bad_pem", "bad_proto", "bad_scheme", "missing_file", "bad_ca", "no_cert", "dup_tag", "dup_tag_quic", "unknown_upstream_tag", "bad_ipmarker", "bad_ipmarker"}
 			if focus == "C10" {
 				kinds = []string{"dup_tag", "dup_set_tag", "unknown_upstream_tag", "unknown_domain_tag", "missing_tag", "missing_addr", "dup_tag_quic"}
 			}
@@ -1282,6 +1282,9 @@ func specialize(r *rng, p *plan.Plan, focus, arm string) {
 			}
 			rp.Ops, rp.Conns = nil, nil
 			rp.HorizonUs = 1_000_000
+			if rp.StartFault.Kind == "bad_ipmarker" && r.p(0.6) {
+				rp.Cache.Redis = &plan.RedisSpec{LatUs: [2]int64{100, 600}}
+			}
 		}
 	case "C17":
 		if arm == "pair" {
